@@ -4,5 +4,7 @@ import ThriftVerif.Facts.ExpectGen
 #print axioms ThriftVerif.Properties.C05.unknown_field_ignored
 #print axioms ThriftVerif.Properties.C05.unknown_field_ignored_stream
 #print axioms ThriftVerif.Properties.C05.absent_field
+#print axioms ThriftVerif.Properties.C05.fails_iff
+#print axioms ThriftVerif.Properties.C05.required_missing_iff
 #print axioms ThriftVerif.Facts.ExpectWire.typeCodes_ok
 #print axioms ThriftVerif.Facts.ExpectWire.fixedWidth_ok
